@@ -5,7 +5,10 @@ import (
 	"verif/internal/cli"
 
 	_ "verif/checks/c01"
+	_ "verif/checks/c03"
+	_ "verif/checks/c04"
 	_ "verif/checks/c15"
+	_ "verif/checks/c17"
 	_ "verif/checks/c20"
 )
 
